@@ -66,13 +66,19 @@ func verifyCall(rt fsRoute, doc string, root *model.Node, opts []gtree.Option) O
 }
 
 // fsOpts builds options for filesystem calls.
+// explicitEmptyTarget: pass WithTargetDir("") explicitly (what the CLI does when --target-dir is
+// not given) instead of omitting the option.
+const explicitEmptyTarget = "\x00explicit-empty"
+
 func fsOpts(target string, exts []string, hasExt, dry, massive, strict bool) []gtree.Option {
 	var o []gtree.Option
-	if target != "" {
+	if target == explicitEmptyTarget {
+		o = append(o, gtree.WithTargetDir(""))
+	} else if target != "" {
 		o = append(o, gtree.WithTargetDir(target))
 	}
 	if hasExt {
-		o = append(o, gtree.WithFileExtensions(exts))
+		o = append(o, gtree.WithFileExtensions(sharedExt(exts)))
 	}
 	if dry {
 		o = append(o, gtree.WithDryRun())
